@@ -1289,6 +1289,10 @@ class cmap_format_12_or_13(CmapSubtable):
             cmap[code] = gid
 
         charCodes.sort()
+        if not charCodes:
+            return struct.pack(
+                ">HHLLL", self.format, self.reserved, 16, self.language, 0
+            )
         index = 0
         startCharCode = charCodes[0]
         startGlyphID = cmap[startCharCode]
